@@ -114,6 +114,29 @@ type BufConn struct {
 	readBytes      atomic.Int64
 	writeBytes     atomic.Int64
 	NoCloseWrite   bool
+	// FailErr, when set (before use), is the error returned by injected read/write failures instead
+	// of ErrInjected - e.g. TimeoutForever to model a transport whose every call fails with a
+	// permanent error that reports Timeout()==true (QUIC idle timeout).
+	FailErr error
+	// EOFWithData: when the peer has closed and the remaining buffered bytes fit into one Read, they are
+	// returned TOGETHER with io.EOF (allowed by io.Reader; QUIC stream conns do this).
+	EOFWithData atomic.Bool
+}
+
+// TimeoutForever is a permanent transport error whose Timeout() is true and Temporary() is false.
+var TimeoutForever error = timeoutForever{}
+
+type timeoutForever struct{}
+
+func (timeoutForever) Error() string   { return "vkit: idle timeout: no recent network activity" }
+func (timeoutForever) Timeout() bool   { return true }
+func (timeoutForever) Temporary() bool { return false }
+
+func (c *BufConn) injected() error {
+	if c.FailErr != nil {
+		return c.FailErr
+	}
+	return ErrInjected
 }
 
 var ErrInjected = errors.New("vkit: injected transport error")
@@ -136,7 +159,7 @@ func (c *BufConn) Read(p []byte) (int, error) {
 		return 0, io.ErrClosedPipe
 	}
 	if fa := c.FailReadAfter.Load(); fa >= 0 && c.readBytes.Load() >= fa {
-		return 0, ErrInjected
+		return 0, c.injected()
 	}
 	h := c.in
 	h.mu.Lock()
@@ -156,7 +179,7 @@ func (c *BufConn) Read(p []byte) (int, error) {
 			if fa := c.FailReadAfter.Load(); fa >= 0 {
 				room := fa - c.readBytes.Load()
 				if room <= 0 {
-					return 0, ErrInjected
+					return 0, c.injected()
 				}
 				if int64(n) > room {
 					n = int(room)
@@ -168,6 +191,9 @@ func (c *BufConn) Read(p []byte) (int, error) {
 				h.buf = nil
 			}
 			c.readBytes.Add(int64(n))
+			if len(h.buf) == 0 && h.wclosed && h.werr == nil && c.EOFWithData.Load() {
+				return n, io.EOF
+			}
 			return n, nil
 		}
 		if h.wclosed {
@@ -195,11 +221,11 @@ func (c *BufConn) Write(p []byte) (int, error) {
 	if fa := c.FailWriteAfter.Load(); fa >= 0 {
 		room := fa - c.writeBytes.Load()
 		if room <= 0 {
-			return 0, ErrInjected
+			return 0, c.injected()
 		}
 		if int64(n) > room {
 			n = int(room)
-			ferr = ErrInjected
+			ferr = c.injected()
 		}
 	}
 	h := c.out
